@@ -9,6 +9,7 @@
 package avc
 
 import (
+	"bytes"
 	"encoding/hex"
 
 	"github.com/q191201771/lal/pkg/base"
@@ -21,7 +22,8 @@ import (
 )
 
 func ParseSps(payload []byte, ctx *Context) error {
-	br := nazabits.NewBitReader(payload)
+	// ISO-14496-10 7.4.1: drop every emulation_prevention_three_byte (00 00 03 -> 00 00) before reading the RBSP
+	br := nazabits.NewBitReader(bytes.Replace(payload, []byte{0x0, 0x0, 0x3}, []byte{0x0, 0x0}, -1))
 	var sps Sps
 	if err := parseSpsBasic(&br, &sps); err != nil {
 		Log.Errorf("parseSpsBasic failed. err=%+v, payload=%s", err, hex.Dump(nazabytes.Prefix(payload, 128)))
